@@ -107,9 +107,15 @@ class FakePort:
             self.rx.popleft()
         self.rx.appendleft(line)
 
+    close_raises = None                        # exception name: the device vanished, close() itself fails
+
     def close(self):
         self.close_calls += 1
         self.closed = True
+        if self.close_raises:
+            name, self.close_raises = self.close_raises, None
+            self.log.append(("x", name))
+            raise EXCEPTIONS[name]()
 
     def reset_input_buffer(self):
         self.rx.clear()
